@@ -69,7 +69,7 @@ def takeFloats (ws : List String) : Option (List Float × List String) :=
   | n :: r => do let n ← parseNat n; let xs ← (r.take n).mapM parseFloat; some (xs, r.drop n)
   | [] => none
 
-def parseReq (ws : List String) : Option (LModel Float × SEx.Env Float) :=
+def parseReq (ws : List String) : Option (LModel Float × SEx.Env Float × List Float) :=
   match ws with
   | "vars" :: r => do
     let (vs, r) ← takeNats r
@@ -88,8 +88,11 @@ def parseReq (ws : List String) : Option (LModel Float × SEx.Env Float) :=
             let (p, r) ← takeFloats r
             match r with
             | "y0" :: r => do
-              let (y0, _) ← takeFloats r
-              some (⟨⟨vs, ps⟩, es⟩, ⟨fun i => y.getD i 0.0, fun i => p.getD i 0.0, fun i => y0.getD i 0.0⟩)
+              let (y0, r) ← takeFloats r
+              let v : List Float := match r with
+                | "v" :: r' => (takeFloats r').map (·.1) |>.getD []
+                | _ => []
+              some (⟨⟨vs, ps⟩, es⟩, ⟨fun i => y.getD i 0.0, fun i => p.getD i 0.0, fun i => y0.getD i 0.0⟩, v)
             | _ => none
           | _ => none
         | _ => none
@@ -102,13 +105,19 @@ def step (ws : List String) : String :=
   | "F" :: r =>
     match parseReq r with
     | none => "bad-op"
-    | some (m, ρ) => match m.evalF fF ρ with
+    | some (m, ρ, _) => match m.evalF fF ρ with
       | .ok v => "ok " ++ showFloats v
       | .error e => "err " ++ toString e
   | "J" :: r =>
     match parseReq r with
     | none => "bad-op"
-    | some (m, ρ) => match m.evalJ fF ρ with
+    | some (m, ρ, _) => match m.evalJ fF ρ with
+      | .ok rows => s!"ok {rows.length} {m.L.vars.sum} " ++ showFloats rows.flatten
+      | .error e => "err " ++ toString e
+  | "H" :: r =>
+    match parseReq r with
+    | none => "bad-op"
+    | some (m, ρ, v) => match m.evalH fF ρ (fun k => v.getD k 0.0) with
       | .ok rows => s!"ok {rows.length} {m.L.vars.sum} " ++ showFloats rows.flatten
       | .error e => "err " ++ toString e
   | _ => "bad-op"
